@@ -53,6 +53,9 @@ func waiterCounts(srv yubiagent.YubiAgent) (counts [tableSize]int, ok bool) {
 		return counts, false
 	}
 	for i := 0; i < conds.Len(); i++ {
+		if conds.Index(i).Kind() == reflect.Ptr && conds.Index(i).IsNil() {
+			continue // no condition variable (yet) for this code: nobody is registered on it
+		}
 		c := conds.Index(i).Elem() // sync.Cond
 		nl := c.FieldByName("notify")
 		w := nl.FieldByName("wait")
@@ -146,7 +149,10 @@ func exec(c Case) (vh.Outcome, error) {
 		return out, vh.Errf("NewServer: %v", err)
 	}
 	if _, ok := waiterCounts(srv); !ok {
-		return out, nil // the shape of the condition-variable table changed: this observation is unavailable
+		// the shape of the condition-variable table changed: this observation is unavailable here;
+		// TestC20Blackbox judges the same statement without it
+		out.Classes = append(out.Classes, "waiter-observation-unavailable(not judged)")
+		return out, nil
 	}
 	reqConn, err := dial(srv)
 	if err != nil {
